@@ -559,8 +559,9 @@ def main(tier, seed):
                     jobs.append(dict(clock=kind, third=third, resched=resched, raises=raises, jitter=False))
         jobs.append(dict(clock=kind, third=2, resched=1, raises=0, jitter=True))
         if kind == 'tempo':
-            for (ta, tb) in ([(1.0, 3.0), (0.5, 2.0)] if tier == 'quick' else
-                             [(1.0, 3.0), (0.5, 2.0), (3.0, 1.0), (2.0, 2.0), (0.25, 4.0)]):
+            # dyadic tempos only: 1/tempo must be exact in the real-number model of floats
+            for (ta, tb) in ([(1.0, 4.0), (0.5, 2.0)] if tier == 'quick' else
+                             [(1.0, 4.0), (0.5, 2.0), (4.0, 1.0), (2.0, 2.0), (0.25, 4.0)]):
                 jobs.append(dict(clock=kind, third=3, resched=1, raises=0, jitter=False, tempo=ta, tempo2=tb))
                 jobs.append(dict(clock=kind, third=4, resched=1, raises=0, jitter=False, tempo=ta, tempo2=tb))
         if tier == 'thorough':
